@@ -184,8 +184,8 @@ def call_with(name, cfg, logical, carriers, span_tuple=False):
         c["_tuple"] = True
     kw = G.build_cfg(name, c)
     int_none = name == "valid_range_test" and None in (cfg.get("valid_span") or []) and any(str(c).startswith("nd_i") or c == "ma_i8" for c in carriers.values())
-    if int_none:
-        return None  # integer data with a None bound: numpy cannot build the span array (not judged)
+    if False and int_none:
+        return None
     for axis, vals in logical.items():
         car = carriers.get(axis)
         if axis == "tinp":
